@@ -20,6 +20,9 @@
                               (the panicking one included) had been called
     RR <mtimeNs> <text>       one reload during which the file becomes <text> right after it was read
     RS                        one reload with the whole-second comparison of the unchanged code
+    SV <keep> <now> <pre> <suf> <excl list> <pairs>
+                              FileConfig.SetValues at clock time <now> on the present file (Sys.setValues; keep = 1: the
+                              variant that carries the old modification time over) → ok <mtimeNs> <size> <text> | nofile | unreadable
        → (nofile | reset | same | loaded | parseerr | expansion) <notified so far>
     G v <key>                 GetValue            → <str>
     G d <key> <def>           GetValueDef         → <str>
@@ -33,7 +36,12 @@
     G h <key> <def> <deli>    the trimmed tokens GetStringHashSet / GetStringHashCodeSet hash → list
     K                         GetKeys             → list (map order of the model)
     OX <name> <id> <d>        a callback registered (name, id) during the last round; it got d ∈ {0,1} calls in it
+    AD                        ApplyDefault()
+    AC <pairs>                ApplyConfig(map)  (every entry stored, empty values included)
+    ST                        String() / ToString() → the lines key=value (map order of the model)
   Stateless ops:
+    PF <homeOpt> <WHATAP_HOME> <WHATAP_CONFIG_HOME> <WHATAP_CONFIG>   → <GetWhatapHome> <directory> <file name>
+    IA <str> <list>           InArray → 0|1
     F <pairs>                 canonical full rendering of the pairs (renderFileFull) → <text>
     WP <checked> <create> <writeFailsAfter|-> <sync> <close> <rename> <old> <new>
                               store part of Write with failing calls → content=old|new|other err=… temp=…
@@ -52,6 +60,8 @@ import Golib.Conf.FullGrammar
 import Golib.Conf.FSFault
 import Golib.Conf.Tracks
 import Golib.Conf.SysHist
+import Golib.Conf.OwnWrite
+import Golib.Conf.Api
 import Driver.Common
 
 open Conf Drv
@@ -192,6 +202,31 @@ def answer (st : DrvSt) (line : String) : DrvSt × String :=
       let c := reloadRacing false st.cfg f1 ⟨t, text⟩
       ({ st with cfg := c, file := some ⟨t, text⟩, obs := if r.2 == .loaded then st.obs.run else st.obs }, showRes c r.2)
     | _, _, _ => (st, "bad-op")
+  | ["SV", keep, now, pre, suf, excl, pairs] =>
+    match parseInt now, decStr pre, decStr suf, decList excl, decPairs pairs with
+    | some now, some pre, some suf, some excl, some pairs =>
+      let s : Sys := ⟨st.cfg, st.file, st.obs⟩
+      let s' := s.setValues (keep == "1") pre suf excl now pairs
+      match st.file, s'.file with
+      | none, _ => (st, "nofile")
+      | some f0, some f =>
+        if (setValuesModel true pre suf excl f0.text pairs).isNone then (st, "unreadable")
+        else ({ st with file := s'.file }, s!"ok {f.mtimeNs} {utf8Len f.text} {encStr f.text}")
+      | _, none => (st, "nofile")
+    | _, _, _, _, _ => (st, "bad-op")
+  | ["AD"] => ({ st with cfg := applyDefault st.cfg }, "ok")
+  | ["AC", pairs] => match decPairs pairs with
+    | some pairs => ({ st with cfg := applyConfig st.cfg pairs }, "ok")
+    | none => (st, "bad-op")
+  | ["ST"] => (st, encList (showLines st.cfg.m))
+  | ["PF", a, b, c, d] => match decStr a, decStr b, decStr c, decStr d with
+    | some a, some b, some c, some d =>
+      let p := confFileParts a b c d
+      (st, s!"{encStr (whatapHome a b)} {encStr p.1} {encStr p.2}")
+    | _, _, _, _ => (st, "bad-op")
+  | ["IA", x, l] => match decStr x, decList l with
+    | some x, some l => (st, if inArray x l then "1" else "0")
+    | _, _ => (st, "bad-op")
   | ["RS"] =>
     let (c, r) := reload verSec st.cfg st.file
     ({ st with cfg := c, obs := if r == .loaded then st.obs.run else st.obs }, showRes c r)
